@@ -252,33 +252,62 @@ impl SessionStorageBackend for SqliteSessionStore {
     /// The server-side state is left unchanged.
     #[tracing::instrument(name = "Change id for server-side session record", level = tracing::Level::INFO, skip_all)]
     async fn change_id(&self, old_id: &SessionId, new_id: &SessionId) -> Result<(), ChangeIdError> {
-        // A record that has expired, but has not been deleted yet, must not get in the way:
-        // as far as callers are concerned, there is no record under `new_id`.
-        sqlx::query(
-            "DELETE FROM sessions \
-            WHERE id = ? AND deadline <= unixepoch()",
-        )
-        .bind(new_id.inner().to_string())
-        .execute(&self.0)
-        .await
-        .map_err(|e| ChangeIdError::Other(e.into()))?;
+        // The rename itself is a single statement:
+        // - nothing happens if there is a *live* record under the new id;
+        // - an *expired* record that still sits under the new id is replaced
+        //   (`OR REPLACE` resolves the primary key conflict by deleting it).
+        // It runs inside a transaction so that, when nothing was renamed, the reason
+        // can be determined on the very same database state (the `UPDATE` has
+        // already taken the write lock by then).
+        let mut tx = self
+            .0
+            .begin()
+            .await
+            .map_err(|e| ChangeIdError::Other(e.into()))?;
         let query = sqlx::query(
-            "UPDATE sessions \
-            SET id = ? \
-            WHERE id = ? AND deadline > unixepoch()",
+            "UPDATE OR REPLACE sessions \
+            SET id = ?1 \
+            WHERE id = ?2 AND deadline > unixepoch() \
+            AND (?1 = ?2 OR NOT EXISTS \
+                (SELECT 1 FROM sessions WHERE id = ?1 AND deadline > unixepoch()))",
         )
         .bind(new_id.inner().to_string())
         .bind(old_id.inner().to_string());
-        match query.execute(&self.0).await {
-            Ok(r) => as_unknown_id_error(&r, old_id).map_err(Into::into),
+        let r = match query.execute(&mut *tx).await {
+            Ok(r) => r,
             Err(e) => {
-                if let Err(e) = as_duplicated_id_error(&e, new_id) {
+                return if let Err(e) = as_duplicated_id_error(&e, new_id) {
                     Err(e.into())
                 } else {
                     Err(ChangeIdError::Other(e.into()))
-                }
+                };
             }
+        };
+        if r.rows_affected() == 0 {
+            // Nothing changed: either the old id is unknown/expired
+            // or the new id is taken by a live record.
+            let old_is_live: Option<i64> =
+                sqlx::query_scalar("SELECT 1 FROM sessions WHERE id = ? AND deadline > unixepoch()")
+                    .bind(old_id.inner().to_string())
+                    .fetch_optional(&mut *tx)
+                    .await
+                    .map_err(|e| ChangeIdError::Other(e.into()))?;
+            return if old_is_live.is_some() {
+                Err(DuplicateIdError {
+                    id: new_id.to_owned(),
+                }
+                .into())
+            } else {
+                Err(UnknownIdError {
+                    id: old_id.to_owned(),
+                }
+                .into())
+            };
         }
+        as_unknown_id_error(&r, old_id)?;
+        tx.commit()
+            .await
+            .map_err(|e| ChangeIdError::Other(e.into()))
     }
 
     /// Delete expired sessions from the database.
